@@ -28,6 +28,7 @@
 #include <cocls/mutex.h>
 #include "shim/rename_off.h"
 #include <sys/wait.h>
+#include <alloca.h>
 
 namespace cocls { using mutex_t = verif_mutex; }
 using namespace cocls;
@@ -73,8 +74,12 @@ struct Scn {
         }
     }
 
-    // blocking lock, spelled as the round asks; `in_coro`: the caller is an ordinary function running inside a coroutine
-    void blocking_lock(mutex_t::ownership *o, const std::string &rd, bool in_coro) {
+    // blocking lock, spelled as the round asks; `in_coro`: the caller is an ordinary function running inside a coroutine.
+    // The stack is padded by the round number: the sync_awaiter of every round of a contender has an address of its own
+    // (a stale expected value of another contender's publishing CAS cannot meet it; the model's `keyOf`).
+    void blocking_lock(mutex_t::ownership *o, const std::string &rd, bool in_coro, int r) {
+        volatile char *pad = static_cast<volatile char *>(alloca(4096 * (r + 1)));
+        pad[0] = 0;
         bool legal_wait = !in_coro || mx._requests.raw() == nullptr;   // wait() asserts in a coroutine unless there is nothing to wait for
         if (has_opt(rd, 'f') || !legal_wait) *o = mx.lock().force_wait();
         else if (has_opt(rd, 'o')) { mutex_t::ownership own(mx.lock()); *o = std::move(own); }
@@ -90,10 +95,11 @@ struct Scn {
                 mutex_t::ownership own;
                 mutex_t::ownership *o = shared ? &slot : &own;
                 if (rd[0] == 't') {
-                    *o = mx.try_lock();
-                    if (!*o) { log("try-fail a" + std::to_string(a) + " r" + std::to_string(r)); rounds_done[a]++; r++; continue; }
+                    mutex_t::ownership got = mx.try_lock();     // the shared slot may be touched by the owner only
+                    if (!got) { log("try-fail a" + std::to_string(a) + " r" + std::to_string(r)); rounds_done[a]++; r++; continue; }
+                    *o = std::move(got);
                 } else if (rd[0] == 'l') {
-                    blocking_lock(o, rd, true);
+                    blocking_lock(o, rd, true, r);
                 } else {
                     *o = co_await mx.lock();
                 }
@@ -131,8 +137,9 @@ struct Scn {
                 mutex_t::ownership *o = shared ? &slot : &own;
                 vshim::Sched::tag() = a;
                 if (rd[0] == 't') {
-                    *o = mx.try_lock();
-                    if (!*o) { log("try-fail a" + std::to_string(a) + " r" + std::to_string(r)); rounds_done[a]++; r++; continue; }
+                    mutex_t::ownership got = mx.try_lock();     // the shared slot may be touched by the owner only
+                    if (!got) { log("try-fail a" + std::to_string(a) + " r" + std::to_string(r)); rounds_done[a]++; r++; continue; }
+                    *o = std::move(got);
                 } else if (rd[0] == 'k') {
                     co_awaiter<mutex_t> req = mx.lock();
                     CbAw cb(req, o);
@@ -145,7 +152,7 @@ struct Scn {
                         S().yield();
                     }
                 } else {
-                    blocking_lock(o, rd, false);
+                    blocking_lock(o, rd, false, r);
                 }
                 crit(a, r);
                 give_up(a, o, rd, shared);
